@@ -27,8 +27,10 @@ def lookup_name(self, name):
         for d in f.closure:
             if name in d:
                 return d[name]
-    if fr.cls is not None and name in getattr(fr.cls, "attr_cache", {}):
-        return fr.cls.attr_cache[name]
+    if fr.func is None and fr.cls is not None:
+        found, v, _ = self.class_attr_raw(fr.cls, name) if name in fr.cls.attr_nodes or name in fr.cls.methods else (False, None, None)
+        if found:
+            return v
     mod = fr.module
     if mod is not None:
         try:
@@ -187,6 +189,13 @@ def eval(self, node):  # noqa: A001
         return v
     if k is ast.Await:
         v = self.eval(node.value)
+        from .values import CoroVal
+        if isinstance(v, CoroVal):
+            return self.call_function(v.f, v.self_val, v.args, v.kwargs, run_async=True)
+        if type(v) in self.await_handlers:
+            return self.await_handlers[type(v)](self, v)
+        if isinstance(v, Opaque):
+            return self.await_opaque(v)
         return v
     if k is ast.Starred:
         raise Unsupported("starred outside call/tuple")
@@ -364,6 +373,14 @@ def binop_values(self, op, a, b):
         if k in (ast.FloorDiv, ast.Mod):
             if self.path.branch(y == 0):
                 self.raise_exc("ZeroDivisionError")
+            if not z3.is_int_value(y):
+                # symbolic divisor: q = pydiv(x, y) (uninterpreted, congruent in its arguments), r = x - y*q with the
+                # defining bounds of Python's floor division.  Keeps VCs polynomial instead of using z3's div/mod.
+                f = _bitfun("pydiv")
+                q = f(z3.simplify(x, som=True), y)
+                r = x - y * q
+                self.path.assume(z3.And(z3.Implies(y > 0, z3.And(r >= 0, r < y)), z3.Implies(y < 0, z3.And(r <= 0, r > y))))
+                return self.wrap(q if k is ast.FloorDiv else r, "int")
             if k is ast.FloorDiv:
                 return self.wrap(zu.py_floordiv(x, y), "int")
             return self.wrap(zu.py_mod(x, y), "int")
@@ -697,6 +714,9 @@ def _lexfun():
 def contains(self, container, item):
     if isinstance(container, NT):
         container = container.items
+    if isinstance(container, PObj) and "__data__" in container.fields and isinstance(container.cls, ClassInfo) \
+            and not self.class_attr_raw(container.cls, "__contains__")[0]:
+        container = container.fields["__data__"]
     if isinstance(container, (tuple,)) or (isinstance(container, PList) and not container.symbolic):
         items = container if isinstance(container, tuple) else container.items
         r = False
@@ -740,6 +760,8 @@ def contains(self, container, item):
 
 
 def len_of(self, v):
+    if isinstance(v, PObj) and "__data__" in v.fields and not self.class_attr_raw(v.cls, "__len__")[0]:
+        v = v.fields["__data__"]
     if isinstance(v, (bytes, str, tuple)):
         return len(v)
     if isinstance(v, NT):
@@ -751,6 +773,8 @@ def len_of(self, v):
             return len(v.ty[1])
     if isinstance(v, PList):
         return self.wrap(z3.Length(v.term), "int") if v.symbolic else len(v.items)
+    if type(v).__name__ == "ArrayVal":
+        return self.len_of(v.lst)
     if isinstance(v, (PDict, PSet)):
         if v.symbolic:
             if v.size is None:
@@ -798,6 +822,8 @@ def eval_slice_index(self, base, lo, hi, step):
 def get_item(self, base, idx):
     if isinstance(base, NT):
         base = base.items
+    if isinstance(base, PObj) and "__data__" in base.fields and not self.class_attr_raw(base.cls, "__getitem__")[0]:
+        base = base.fields["__data__"]
     if isinstance(base, PDict):
         return self.methods[("dict", "__getitem__")](self, base, [idx], {})
     if isinstance(base, (tuple,)) or (isinstance(base, PList) and not base.symbolic):
@@ -848,7 +874,7 @@ def get_item(self, base, idx):
             self.raise_exc("IndexError")
         pos = z3.simplify(z3.If(it < 0, it + n, it))
         if ty == "bytes":
-            el = s[pos]
+            el = zu.smart_nth(s, pos)
             self.path.assume(z3.And(el >= 0, el <= 255))
             return self.wrap(el, "int")
         if ty == "str":
@@ -873,6 +899,8 @@ def _seq_elem(self, t, elty):
 
 
 def set_item(self, base, idx, val):
+    if isinstance(base, PObj) and "__data__" in base.fields and not self.class_attr_raw(base.cls, "__setitem__")[0]:
+        base = base.fields["__data__"]
     if isinstance(base, PDict):
         return self.methods[("dict", "__setitem__")](self, base, [idx, val], {})
     if isinstance(base, PList) and not base.symbolic and isinstance(idx, int):
@@ -909,6 +937,8 @@ def format_value(self, val, conversion, spec):
 
 def iterate(self, v):
     """Return a python list of the elements (concrete length only)."""
+    if isinstance(v, PObj) and "__data__" in v.fields and not self.class_attr_raw(v.cls, "__iter__")[0]:
+        v = v.fields["__data__"]
     if isinstance(v, NT):
         return list(v.items)
     if isinstance(v, tuple):
@@ -931,6 +961,8 @@ def iterate(self, v):
         return list(v.items)
     if isinstance(v, _LazyIter):
         return v.materialize()
+    if type(v).__name__ == "ArrayVal":
+        return self.iterate(v.lst)
     if isinstance(v, Sym) and isinstance(v.ty, tuple) and v.ty[0] == "tuple":
         return _tuple_items(self, v)
     if isinstance(v, range):
@@ -1021,9 +1053,8 @@ def do_getattr(self, obj, name):
                 val = decl[name](self, obj, name)
                 obj.fields[name] = val
                 return val
-            m = self.methods.get(("object:" + _root_builtin(self, obj.cls), name))
-            if m is not None:
-                return Builtin(name, lambda ip, a, k, _m=m, _o=obj: _m(ip, _o, a, k))
+            if "__data__" in obj.fields:
+                return self.do_getattr(obj.fields["__data__"], name)
         elif isinstance(obj.cls, BuiltinClass):
             m = self.methods.get(("exc", name))
             if m is not None:
@@ -1386,14 +1417,17 @@ def _eval_default(self, f, node):
         self.frames.pop()
 
 
-def call_function(self, f: FuncVal, self_val, args, kwargs):
+def call_function(self, f: FuncVal, self_val, args, kwargs, run_async=False):
     from .interp import MAX_DEPTH, Frame
     key = f"{f.module.relpath}::{f.qualname}"
     hook = self.call_hooks.get(key)
-    if hook is not None and not getattr(self, "_in_hook_" + str(id(hook)), False):
+    if hook is not None and not run_async:
         r = hook(self, f, self_val, args, kwargs)
         if r is not _NOHOOK:
             return r
+    if isinstance(f.node, ast.AsyncFunctionDef) and not run_async:
+        from .values import CoroVal
+        return CoroVal(f, self_val, args, kwargs)
     if isinstance(f.node, ast.Lambda):
         local = self.bind_args(f, self_val, args, kwargs)
         fr = Frame(f, local, f.module, f.cls)
@@ -1466,6 +1500,10 @@ def new_instance(self, cls: ClassInfo, args, kwargs):
     if hook is not None:
         return hook(self, cls, None, args, kwargs)
     obj = PObj(cls, {})
+    for c in self.mro(cls):
+        if isinstance(c, BuiltinClass) and c.name in ("dict", "OrderedDict", "defaultdict", "list", "set"):
+            obj.fields["__data__"] = self.call(c, [], {})
+            break
     found, init, owner = self.class_attr_raw(cls, "__init__")
     if found:
         self.call(BoundMethod(obj, init), args, kwargs)
